@@ -2250,7 +2250,8 @@ def literal_identifiers(task, tier, seed):
 
 # ------------------------------------------------------------------ bounded differential stand-in (end to end)
 
-KNOWN_CLASSES = ("dead-read-changes-output", "for-else-loopcontrol")
+KNOWN_CLASSES = ("dead-read-changes-output",)  # listed in known_findings.d/c03.json
+KEY_CLASSES = ("dead-read-changes-output", "for-else-loopcontrol")  # readable finding keys (the second one was DESIGN F11, repaired in /repo: a recurrence is a violation)
 
 
 def native_scoping(w=None, count=240, seed=11):
@@ -2285,7 +2286,7 @@ def bounded_scoping(part, parts):
             for di, d in enumerate(S.DATA):
                 cases += 1
                 for ob, key, det in S.check_program(prog, d, renaming_index=i + di):
-                    cls = key if key in KNOWN_CLASSES else "other"
+                    cls = key if key in KEY_CLASSES else "other"
                     fails.setdefault((ob, cls), []).append((prog, d, key, det))
         task.bound_text = (f"{count} generated statement trees per task (x{parts} tasks; depth <= 3, <= 3 statements per body, names {S.ALL_NAMES}) over "
                            f"if/elif/else, for (else, filter, recursive, break/continue), set, block set, with, macro (defaults), call, filter block, "
